@@ -69,6 +69,7 @@ const (
 	HoldNone    = iota
 	HoldFlag    // releasable once Flags[arg]
 	HoldCounter // releasable once Counters[arg] >= arg2
+	HoldQuiet   // releasable once nothing else can move (only loops taking ticks, or nothing at all)
 )
 
 // Slot is the simulator's record of one goroutine. A slot is written only by
@@ -747,6 +748,8 @@ func (s *Sim) releasable(sl *Slot) bool {
 		return s.Flags[sl.holdArg]
 	case HoldCounter:
 		return s.Counters[sl.holdArg] >= sl.holdArg2
+	case HoldQuiet:
+		return false // step() releases it when everybody else has come to rest
 	}
 	return true
 }
@@ -958,6 +961,21 @@ func (s *Sim) step() bool {
 			}
 		}
 	}
+	if q := s.quietHolder(); q >= 0 {
+		quiet := n == 0
+		if !quiet && onlyLoops {
+			quiet = true
+			for i := 0; i < n; i++ {
+				o := &s.slots[cand[i]]
+				if o.LastSite != scheduler.VerifLSelect || o.armsReady&^scheduler.VerifArmTick != 0 {
+					quiet = false
+				}
+			}
+		}
+		if quiet {
+			cand[0], n, onlyLoops = q, 1, false
+		}
+	}
 	if n == 0 {
 		// Only time can make progress: a pending harness timer, or a ticker
 		// waking a loop that is blocked in its select.
@@ -1019,6 +1037,16 @@ func (s *Sim) step() bool {
 	s.Steps++
 	sleepToBoundary()
 	return true
+}
+
+//go:norace
+func (s *Sim) quietHolder() int {
+	for i := 0; i < s.nslots; i++ {
+		if o := &s.slots[i]; o.parked && o.holdKind == HoldQuiet {
+			return i
+		}
+	}
+	return -1
 }
 
 //go:norace
